@@ -456,3 +456,11 @@ fn entry(input: proc_macro::TokenStream) -> Result<TokenStream> {
 
     Ok(ts.into_impl(ident, generics))
 }
+
+// Verification hook (H1): with `--cfg ts_rs_verif`, the unit-test build of this crate includes an
+// external in-process harness as a child module. Absent from every normal build.
+#[cfg(all(test, ts_rs_verif))]
+#[allow(unused, clippy::all)]
+mod verif {
+    include!(env!("TS_RS_VERIF_MACROS_HARNESS"));
+}
